@@ -39,6 +39,7 @@ type fakeRegion struct {
 	encOK    bool
 	decOK    bool
 	partial  bool      // GenerateDataKey answers without error but with an empty CiphertextBlob (the plaintext is there)
+	wrong    bool      // Decrypt answers without error but with a data key that is not the one the envelope was sealed under (a stale or foreign regional entry)
 	log      *[]string // shared, ordered call log "gen:<id>", "enc:<id>", "dec:<id>"
 	logMu    *sync.Mutex
 	retained [][]byte // plaintext slices handed to the plugin (must be wiped by it)
@@ -135,6 +136,12 @@ func (f *fakeRegion) decrypt(blob []byte) ([]byte, error) {
 	if err != nil {
 		return nil, err
 	}
+	if f.wrong {
+		pt = append([]byte(nil), pt...)
+		for i := range pt {
+			pt[i] ^= 0xa5
+		}
+	}
 	f.mu.Lock()
 	f.retained = append(f.retained, pt)
 	f.handed = append(f.handed, append([]byte(nil), pt...))
@@ -213,7 +220,8 @@ type kmsCase struct {
 	Partial   []bool   `json:"partial,omitempty"` // regions whose GenerateDataKey response is incomplete (wipe monitor only, C10)
 	Cancel    string   `json:"cancel,omitempty"`  // "gen" | "enc" | "dec": the caller's context ends as the CancelAt-th successful call of that kind returns (wipe monitor only, C10)
 	CancelAt  int      `json:"cancelat,omitempty"`
-	Leak      bool     `json:"leak,omitempty"` // debug logging is on and every line is scanned for plaintext keys (C03)
+	Leak      bool     `json:"leak,omitempty"`  // debug logging is on and every line is scanned for plaintext keys (C03)
+	Wrong     []bool   `json:"wrong,omitempty"` // unwrap side: regions whose KMS Decrypt succeeds but returns a data key that does not open the envelope
 	Viol      []string `json:"viol,omitempty"`
 }
 
@@ -410,6 +418,7 @@ func runKmsCase(c *kmsCase, r *gen.Rand) {
 	// unwrap side: possibly a different plugin version, a subset of regions, different availability
 	for i, rg := range regs {
 		rg.decOK = c.Dec[i]
+		rg.wrong = i < len(c.Wrong) && c.Wrong[i]
 	}
 	dset := []int{}
 	for i := 0; i < c.N; i++ {
@@ -460,7 +469,7 @@ func runKmsCase(c *kmsCase, r *gen.Rand) {
 	able := false
 	for _, i := range c.DOrder {
 		for _, e := range c.Entries {
-			if e == i && c.Dec[i] {
+			if e == i && c.Dec[i] && !(i < len(c.Wrong) && c.Wrong[i]) {
 				able = true
 			}
 		}
@@ -541,6 +550,9 @@ func runKms(a *args) error {
 		c := &kmsCase{N: n, Pref: r.Intn(n), Gen: bits(r.Intn(1<<uint(n)), n), Enc: bits(r.Intn(1<<uint(n)), n), Dec: bits(r.Intn(1<<uint(n)), n),
 			WrapV: 1 + r.Intn(2), UnwrapV: 1 + r.Intn(2), DecN: 1 + r.Intn(n)}
 		c.Leak = a.extra == "leak"
+		if n >= 2 && r.Chance(1, 4) { // some regions hand back a data key that does not open the envelope
+			c.Wrong = bits(r.Intn(1<<uint(n)), n)
+		}
 		if a.extra == "cancel" { // the caller's context ends while a successful response is on its way back
 			c.Cancel = gen.Pick(r, []string{"gen", "gen", "enc", "dec"})
 			c.CancelAt = r.Intn(2)
